@@ -210,13 +210,13 @@ def run_shard(spec, acc):
         offs = range(1, len(stream))
         combos = [[c] for c in offs]
         if not quick:
-            combos += [[a, b] for a in offs for b in offs if a < b][:6000]
+            combos += [[a, b] for a in offs for b in offs if a < b][:25000]
         for cuts in combos:
             sim, stats = run_one(kind, stream, cuts, 1, {}, "ok")
             judge(sim, stats, want, acc, kind, "cut_at_every_offset", cuts, {}, cb, stream, undel, True)
         acc.set_exhaustive(f"{kind}: single cut at every offset of a {len(stream)}-byte stream", True)
         return
-    for rep in range(15 if quick else 40):
+    for rep in range(15 if quick else 150):
         settings = {}
         packets, pool = build_stream(kind, dbx, rng, 25 if quick else 60)
         if rep % 3 == 1:
